@@ -33,6 +33,10 @@ CLAIMED = {
    text="Lean theorems: PA-data hint selection equals the RFC 4120 5.2.7.5 precedence and is order independent (with the unrepaired loop refuted by witness); des3 random-to-key always yields odd parity bytes with the input's top 7 bits and never a weak key; UTF-16LE encoding injective on scalar values; s2kparams are exactly 4 big-endian octets; regenerated key/seed sizes equal the RFC sizes. String-to-key, n-fold (arithmetic definition), DR/DK, KDF-HMAC-SHA2, random-to-key values are compared with Go for the property's whole quantifier.",
    note=CRYPTO_NOTE + "n-fold: the Lean definition is arithmetic (ones'-complement sum of rotated copies) and is compared with the Go bit loop on every length 1..64 x 6 sizes; their equality is not proved.",
    technique="Lean 4 proof (finite case analysis, kernel decide over all 256 bytes / 16 weak keys, induction) + differential key values", design="5/C08"),
+ "C16": dict(
+   text="Lean theorems over models of Realm.parseLines and ResolveRealm: the realm block parser never panics for any line sequence and nesting (the unrepaired loop is refuted by witness), rejects unpaired closing brackets and lines without '=', skips relations inside nested blocks, honours the final-value marker and the kdc port default; host-to-realm resolution returns the exact host mapping, else the mapping of the longest matching domain suffix (most specific), else nothing. Whole-file semantics (sections, comments, whitespace, key case, all boolean spellings, the four MIT duration formats, enctype names, per-realm lists, domain mappings, GetKDCs multiset, invalid files) are compared against an AST-based expectation on rendered configurations with randomised layout; realm blocks and resolution are additionally compared with the Lean models.",
+   note="The file-level parser (regexp section splitting, strconv, time.ParseDuration) is not modelled at the string level: that part is differential testing against the configuration AST. Only documented syntax is rendered (no trailing comments, no '=' or '#' inside values, lower-case hosts).",
+   technique="Lean 4 proof (state-machine totality, list lemmas for suffix order) + AST-expectation differential run on rendered configurations", design="5/C16"),
  "C17": dict(
    text="Lean theorems over a model of wrapToken.go/MICToken.go: Marshal equals the RFC 4121 4.2.6 layout; Unmarshal(Marshal t) = t; for ALL byte strings a successful decode implies token id, filler and direction flag are the expected ones; Verify is true exactly when the checksum equals the RFC checksum over payload||header(flags, seq, EC=RRC=0); the checksummed string determines payload, flags and sequence number, so accepting after any of them changed exhibits a checksum collision. Tied to Go by byte comparison of built tokens (independent Lean implementation) and by every bit flip / truncation / direction mismatch / changed field.",
    note=CRYPTO_NOTE, technique="Lean 4 proof (layout, decode strictness for all inputs, injectivity of the MAC input) + differential token bytes and exhaustive mutations", design="5/C17"),
